@@ -887,6 +887,61 @@ fn replay_category(_args: &[String]) -> i32 {
     0
 }
 
+/// C09 probe: `catalognull` -- a structure-aware corruption: one cell of a catalog table
+/// (`_Tables`, `_Columns`, `_Validation`) is overwritten with the null encoding (zero bytes).
+/// Opening the file must return a package or an error -- not panic.  The streams are column-major:
+/// column c of an n-row table starts at n * (sum of the widths of the columns before c).
+fn replay_catalognull(_args: &[String]) -> i32 {
+    use msi::Column;
+    use std::io::{Read, Seek, SeekFrom, Write};
+    panic::set_hook(Box::new(|_| {}));
+    let bytes: Vec<u8> = {
+        let mut p = Package::create(PackageType::Installer, Cursor::new(Vec::new())).unwrap();
+        p.create_table("T", vec![Column::build("K").primary_key().int16(), Column::build("S").nullable().string(64)]).unwrap();
+        p.into_inner().unwrap().into_inner()
+    };
+    // (stream, widths of its columns with two-byte string references, column to null)
+    let cases: [(&str, &[usize], usize); 8] = [
+        ("_Tables", &[2], 0),
+        ("_Columns", &[2, 2, 2, 2], 0), ("_Columns", &[2, 2, 2, 2], 1), ("_Columns", &[2, 2, 2, 2], 2), ("_Columns", &[2, 2, 2, 2], 3),
+        ("_Validation", &[2, 2, 2, 4, 4, 2, 2, 2, 2, 2], 0), ("_Validation", &[2, 2, 2, 4, 4, 2, 2, 2, 2, 2], 1), ("_Validation", &[2, 2, 2, 4, 4, 2, 2, 2, 2, 2], 2),
+    ];
+    for (table, widths, col) in cases {
+        let patched: Option<Vec<u8>> = {
+            let mut comp = cfb::CompoundFile::open(Cursor::new(bytes.clone())).unwrap();
+            let name = mangle_table_name(table);
+            let mut data = Vec::new();
+            comp.open_stream(&name).unwrap().read_to_end(&mut data).unwrap();
+            let row_width: usize = widths.iter().sum();
+            if data.is_empty() || data.len() % row_width != 0 { None } else {
+                let n = data.len() / row_width;
+                let start: usize = n * widths[..col].iter().sum::<usize>();
+                // the LAST row's cell of that column
+                let off = start + (n - 1) * widths[col];
+                for b in &mut data[off..off + widths[col]] { *b = 0; }
+                let mut st = comp.open_stream(&name).unwrap();
+                st.seek(SeekFrom::Start(0)).unwrap();
+                st.write_all(&data).unwrap();
+                st.flush().unwrap();
+                drop(st);
+                comp.flush().unwrap();
+                Some(comp.into_inner().into_inner())
+            }
+        };
+        let Some(patched) = patched else { println!("REPLAY family=catalognull table={table} verdict=ok (stream layout not as expected; case not applicable)"); continue; };
+        let r = panic::catch_unwind(move || Package::open(Cursor::new(patched)).map(|_| ()).map_err(|e| e.to_string()));
+        match r {
+            Err(_) => {
+                println!("REPLAY family=catalognull corruption=\"null cell in column {col} of the last row of {table}\" verdict=VIOLATED (Package::open PANICKED)");
+                return 1;
+            }
+            Ok(res) => println!("REPLAY family=catalognull table={table} column={col} result={res:?} (a package or an error)"),
+        }
+    }
+    println!("REPLAY family=catalognull verdict=ok (no panic)");
+    0
+}
+
 fn main() {
     let args: Vec<String> = std::env::args().skip(1).collect();
     if args.is_empty() {
@@ -909,6 +964,7 @@ fn main() {
         "zerorc" => replay_zerorc(&args[1..]),
         "dangling" => replay_dangling(&args[1..]),
         "category" => replay_category(&args[1..]),
+        "catalognull" => replay_catalognull(&args[1..]),
         _ => 2,
     };
     std::process::exit(rc);
